@@ -4,6 +4,7 @@
    order N; the Frobenius maps as p-power maps; the G1/G2 point formulas; modn_mul / modn_inv. *)
 From Coq Require Import ZArith List.
 From GmVerif Require Import Base.Bytes Codec.Der Codec.DerProofs Sm9.Sm9Der.
+From GmVerif Require Import Sm9.TowerFrob.
 From GmVerif Require Import Sm9.Fermat Sm9.Tower Sm9.TowerProofs Sm9.TowerInv Sm9.C17Lemmas Sm9.ModN Sm9.ModNProofs Sm9.Sm9Scheme.
 Open Scope Z_scope.
 
@@ -260,3 +261,21 @@ Theorem C17_key_info_copy_within_capacity :
   Forall (fun cap : N => forall l : N, info_helper_copy cap l <> Der.Fault) info_caller_caps.
 Proof. exact info_copy_within_capacity. Qed.
 Print Assumptions C17_key_info_copy_within_capacity.
+
+(* ---- Frobenius maps: the coded maps (stored constants, conjugations, sign flips) equal the maps
+   sum z_i w^i |-> sum conj^j(z_i) s^i w^i with s = (-2)^((p^j-1)/12) (resp. /4 on Fp4) computed from p.
+   That these are x |-> x^(p^j) is not proved (tested: frobpow ops). *)
+Theorem C17_fp2_frobenius : forall a : T2, canon2 (I2conj a) = canon2 (S2cj 1 a).
+Proof. exact fp2_frobenius_ok. Qed.
+Print Assumptions C17_fp2_frobenius.
+
+Theorem C17_fp4_frobenius : forall a : T4,
+  canon4 (I4frobenius a) = S4frob 1 a /\ canon4 (I4frobenius2 a) = S4frob 2 a /\ canon4 (I4frobenius3 a) = S4frob 3 a.
+Proof. exact fp4_frobenius_ok. Qed.
+Print Assumptions C17_fp4_frobenius.
+
+Theorem C17_fp12_frobenius : forall x : T12,
+  canon12 (I12frobenius x) = S12frob 1 x /\ canon12 (I12frobenius2 x) = S12frob 2 x /\
+  canon12 (I12frobenius3 x) = S12frob 3 x /\ canon12 (I12frobenius6 x) = S12frob 6 x.
+Proof. exact fp12_frobenius_ok. Qed.
+Print Assumptions C17_fp12_frobenius.
